@@ -201,6 +201,7 @@ type loopEnv struct {
 	phis map[string]*Val // by source name
 	iter *Term
 	pre  *State // heap state at loop entry (before the havoc)
+	hdr  *ssa.BasicBlock
 }
 
 type deferSite struct {
@@ -924,7 +925,7 @@ func (f *Frame) clauseProps(cl *Clause) []string {
 
 // loopEnvFor builds the name environment at a loop header; over replaces phi values.
 func (f *Frame) loopEnvFor(li *loopInfo, over map[*ssa.Phi]*Val) *loopEnv {
-	env := &loopEnv{phis: map[string]*Val{}, pre: li.preState}
+	env := &loopEnv{phis: map[string]*Val{}, pre: li.preState, hdr: li.header}
 	// enclosing loops first (outer phis visible by name), then this loop
 	var chain []*loopInfo
 	for _, l := range f.loopList {
@@ -985,6 +986,13 @@ func (f *Frame) loopEnvFor(li *loopInfo, over map[*ssa.Phi]*Val) *loopEnv {
 			}
 			if v == nil {
 				continue
+			}
+			if _, seen := env.phis[phiName(phi)]; seen && l != li {
+				// a nearer dominating definition of the same variable (found on the way up from
+				// this loop's header) is the current one; the enclosing loop's header value is older
+				if nearerThan(li.header, phi, f, phiName(phi)) {
+					continue
+				}
 			}
 			env.phis[phiName(phi)] = v
 			if phi.Comment == "rangeindex" && l == li {
@@ -1055,4 +1063,18 @@ func forwardAncestors(fn *ssa.Function) map[int]map[int]bool {
 		visit(b)
 	}
 	return anc
+}
+
+
+// nearerThan: walking up the dominator tree from hdr, a phi or debug reference named name
+// is met before reaching the block of outer.
+func nearerThan(hdr *ssa.BasicBlock, outer *ssa.Phi, f *Frame, name string) bool {
+	for b := hdr.Idom(); b != nil && b != outer.Block(); b = b.Idom() {
+		for _, in := range b.Instrs {
+			if phi, ok := in.(*ssa.Phi); ok && phi.Comment == name && f.vals[phi] != nil {
+				return true
+			}
+		}
+	}
+	return false
 }
